@@ -16,7 +16,7 @@ TRUSTED = ["Coq 8.16.1 kernel", "all hand-written models, tied by the correspond
 ASSUMPTIONS = ["libwifi_parse_radiotap_rssi takes no length (F34, open): it is applied only to buffers that hold a complete header",
                "frame_len < 2^31"]
 
-OPS = ["classify 0", "classify 1", "mgmt 0", "mgmt 1", "eapol 0", "eapol 1", "rtap", "iter", "verify"]
+OPS = ["classify 0", "classify 1", "mgmt 0", "mgmt 1", "eapol 0", "eapol 1", "rtap", "iter", "verify", "ie rsn", "ie wpa", "ie msft"]
 
 
 def all_ops(buf, ops=OPS):
@@ -88,6 +88,7 @@ def gen_cases(tier, seed):
                         cases.append("mgmt 0 " + hx(fr)); n_elcut += 1
     # suite counts against suites present, incl. counts whose byte length wraps 16 bits
     cases += c08.count_cases(rng)
+    cases += c08.ie_cases(rng, q)
     # radiotap headers and tag buffers
     for _ in range(300 if q else 6000):
         h = rtgen.rtap_single(rng.getrandbits(23), rng) if rng.random() < 0.5 else rtgen.rtap_multi(rng)
